@@ -185,6 +185,22 @@ pub fn check_case(c: &FCase) -> Option<(String, String)> {
     if s2.dict.get(b"Length").and_then(Object::as_i64).ok() != Some(s2.content.len() as i64) {
         return Some(("length".into(), "Length != content length after decompress".into()));
     }
+    // compress() on a stream that already carries filters: whatever it decides to do, the stream must still
+    // decode to the same bytes, must not grow, and Length must follow the content
+    let mut s3 = s.clone();
+    if let Err(e) = s3.compress() {
+        return Some(("compress".into(), format!("compress failed on an already filtered stream: {:?}", e)));
+    }
+    if s3.content.len() > s.content.len() {
+        return Some(("compress-longer".into(), format!("compress made an already filtered stream longer: {} -> {}", s.content.len(), s3.content.len())));
+    }
+    if s3.dict.get(b"Length").and_then(Object::as_i64).ok() != Some(s3.content.len() as i64) {
+        return Some(("length".into(), "Length != content length after compress of an already filtered stream".into()));
+    }
+    match s3.decompressed_content() {
+        Ok(out) if out == c.plain => {}
+        _ => return Some(("compress-lossy".into(), "after compress() an already filtered stream no longer decodes to its plaintext".into())),
+    }
     None
 }
 
